@@ -519,3 +519,63 @@ func genC17(t *rapid.T) c17Case {
 func TestC17_Helpers(t *testing.T) {
 	c17Main.rapid(t, ev.Pick(60_000, 800_000), genC17)
 }
+
+// ---------------------------------------------------------------------------
+// Decimal questions at the boundaries of the conversion, enumerated. A decimal-to-hexadecimal routine written without
+// big integers sizes its work area from the number of decimal digits; it goes wrong where the number of hex digits
+// steps up — at the powers of 16 — and at the largest values of a length. Random questions meet such a value rarely
+// (for one length in 64, one leading-digit range in 20).
+var c17Bound = newPart("C17", "question-boundaries",
+	"complete: the decimal questions 16^h - 1, 16^h, 16^h + 1 (h = 0..53, every step in the number of hex digits up to 64 decimal digits), 10^(L-1), 10^L - 1 and 95 followed by nines (L = 1..64), and each with leading zeros up to the next length, through ParseDecimalChallengeRFC6287 and end-to-end through GenerateOCRA (SHA-1 / 6 digits, QN08); oracle: the independent decimal-to-hex conversion right-padded to 128 bytes and the RFC 6287 reference; every case distinct and non-trivial",
+	checkC17)
+
+func TestC17_QuestionBoundaries(t *testing.T) {
+	defer c17Bound.rec().Flush()
+	seen := map[string]bool{}
+	var qs []string
+	add := func(v *big.Int) {
+		if v.Sign() < 0 {
+			return
+		}
+		s := v.String()
+		if len(s) > 64 || seen[s] {
+			return
+		}
+		seen[s] = true
+		qs = append(qs, s)
+		if len(s) < 64 {
+			qs = append(qs, "0"+s)
+		}
+	}
+	one := big.NewInt(1)
+	p := big.NewInt(1)
+	for h := 0; h <= 53; h++ {
+		add(new(big.Int).Sub(p, one))
+		add(p)
+		add(new(big.Int).Add(p, one))
+		p = new(big.Int).Lsh(p, 4)
+	}
+	ten := big.NewInt(10)
+	p = big.NewInt(1)
+	for l := 1; l <= 64; l++ {
+		add(p) // 10^(l-1)
+		next := new(big.Int).Mul(p, ten)
+		add(new(big.Int).Sub(next, one)) // 10^l - 1
+		if l >= 3 {
+			v, _ := new(big.Int).SetString("95"+strings.Repeat("9", l-2), 10)
+			add(v)
+			v2, _ := new(big.Int).SetString("96"+strings.Repeat("0", l-2), 10)
+			add(v2)
+		}
+		p = next
+	}
+	key := []byte("12345678901234567890")
+	for i, q := range qs {
+		if !ev.Mine(i) {
+			continue
+		}
+		c17Bound.each(t, c17Case{Fn: "ParseDecimalChallengeRFC6287", S: []byte(q)})
+		c17Bound.each(t, c17Case{Fn: "question-end-to-end", S: []byte(q), Hash: 0, Digits: 6, QFmt: 1, Key: key})
+	}
+	c17Bound.rec().Exhaustive()
+}
